@@ -14,7 +14,7 @@ import (
 func init() {
 	register(&propDef{
 		ID:          "C20",
-		Explanation: "Decides, for the live-reload proxy's response rewriter (found structurally: the function that assigns the Body of its *http.Response parameter) and its helpers: R1 ContentLength and the Content-Length header are both computed from Len() of the very buffer installed as the new body, and the encoder's Close() dominates both reads (otherwise a gzip/brotli trailer is not counted); R2 every non-empty arm of the Content-Encoding switch binds a reader and a writer constructor from the same package, the empty encoding binds nothing (identity), and the arm for an unknown encoding leaves the function without touching the response; R3 the skip-marker test and the content-type test precede every mutation of the response and return, and the round tripper sets the marker only on the HX-Request == \"true\" path; R4 the nonce given to the script builder is parsed from the response's Content-Security-Policy header and reaches a nonce attribute; (the policy parser takes the nonce only from a script-src* directive — one directive per test, so that precedence between directives is not decided by their order in the header); R5 exactly one AppendChild on the first body node, outside loops, and every failure path of the inserter returns the original body. R6 the buffer installed as the new body is a fresh local allocation of the rewriter and is never handed to a sync.Pool (the reverse proxy reads it after the rewriter returns). R7 the page is parsed with scripting enabled, as the receiving browser does. R8 a function that answers from a cache makes the hit depend on every parameter its miss path computes from. NOT decided: that parse+render preserves the rest of the document; CSP header grammars. R10 every path of the rewriter that has read the response body and returns without an error installs a new body. R11 an append on shared storage of the proxy package whose new elements may land in that storage (a slice of a package-level array, a field or variable with declared spare capacity) is reported; R3 also: every path of the round tripper that returns a response went through the function that sets the skip marker (first attempt and retries alike). R12/R13 no error result of the proxy is dropped or detected and not reported; R14 the nonce is taken from the script-src directive only; R15 the body matcher tests the node type (an element named body), not only the node's data. R16 the src of the appended script is an absolute path (constant-evaluated through package variables and path.Join). R17 the proxy package does not use net/http's ServeMux (it answers non-canonical paths itself with a 301, so their upstream responses never pass through); R18 no reader of the proxy ends a body at a byte count without an error (io.LimitReader, io.LimitedReader, io.CopyN).",
+		Explanation: "Decides, for the live-reload proxy's response rewriter (found structurally: the function that assigns the Body of its *http.Response parameter) and its helpers: R1 ContentLength and the Content-Length header are both computed from Len() of the very buffer installed as the new body, and the encoder's Close() dominates both reads (otherwise a gzip/brotli trailer is not counted); R2 every non-empty arm of the Content-Encoding switch binds a reader and a writer constructor from the same package, the empty encoding binds nothing (identity), and the arm for an unknown encoding leaves the function without touching the response; R3 the skip-marker test and the content-type test precede every mutation of the response and return, and the round tripper sets the marker only on the HX-Request == \"true\" path; R4 the nonce given to the script builder is parsed from the response's Content-Security-Policy header and reaches a nonce attribute; (the policy parser takes the nonce only from a script-src* directive — one directive per test, so that precedence between directives is not decided by their order in the header); R5 exactly one AppendChild on the first body node, outside loops, and every failure path of the inserter returns the original body. R6 the buffer installed as the new body is a fresh local allocation of the rewriter and is never handed to a sync.Pool (the reverse proxy reads it after the rewriter returns). R7 the page is parsed with scripting enabled, as the receiving browser does. R8 a function that answers from a cache makes the hit depend on every parameter its miss path computes from. NOT decided: that parse+render preserves the rest of the document; CSP header grammars. R10 every path of the rewriter that has read the response body and returns without an error installs a new body. R11 an append on shared storage of the proxy package whose new elements may land in that storage (a slice of a package-level array, a field or variable with declared spare capacity) is reported; R3 also: every path of the round tripper that returns a response went through the function that sets the skip marker (first attempt and retries alike). R12/R13 no error result of the proxy is dropped or detected and not reported; R14 the nonce is taken from the script-src directive only; R15 the body matcher tests the node type (an element named body), not only the node's data. R16 the src of the appended script is an absolute path (constant-evaluated through package variables and path.Join). R17 the proxy package does not use net/http's ServeMux (it answers non-canonical paths itself with a 301, so their upstream responses never pass through); R18 no reader of the proxy ends a body at a byte count without an error (io.LimitReader, io.LimitedReader, io.CopyN). R19 in the function that reads the nonce out of the Content-Security-Policy header, once a nonce is found both loops are left (the first script-src directive wins, as in browsers).",
 		Assumptions: []string{"gzip/brotli writers emit their trailer on Close", "x/net/html Render(Parse(doc)) denotes doc (not checked)"},
 		Trusted:     []string{"go/types", "x/tools go/packages, go/cfg"},
 		Run:         runC20,
@@ -33,6 +33,7 @@ func runC20(c *Ctx) {
 	errorsNotLost(c, "C20.R12", "cmd/templ/generatecmd/proxy")
 	errorsFoundAreReported(c, "C20.R13", "cmd/templ/generatecmd/proxy")
 	nonceOnlyFromScriptSrc(c, "C20.R14")
+	firstNonceWins(c, "C20.R19")
 	bodyMatcherTestsElementType(c, "C20.R15")
 	p := c.pkg("cmd/templ/generatecmd/proxy")
 	info := p.TypesInfo
